@@ -2335,7 +2335,7 @@ int _vnaproperty_yaml_import(vnaproperty_yaml_t *vymlp,
 		if (key->type != YAML_SCALAR_NODE) {
 		    _vnaproperty_yaml_error(vymlp, VNAERR_WARNING,
 			    "%s (line %ld) warning: "
-			    "non-scalar property key ignored\n",
+			    "non-scalar property key ignored",
 			    vymlp->vyml_filename, key->start_mark.line + 1);
 		    continue;
 		}
